@@ -3,7 +3,7 @@
    (they show that neither window flag of W_C08 can be dropped).  Everything here is by vm_compute. *)
 From Coq Require Import List ZArith NArith Bool.
 From PC.Base Require Import Assoc.
-From PC.Sup Require Import Model Monitors Sim RelC08 RelC08b SpecC08 CallC08.
+From PC.Sup Require Import Model Monitors Sim RelC08 RelC08b SpecC08 CallC08 RegC08.
 Import ListNotations.
 Open Scope N_scope.
 
@@ -192,4 +192,22 @@ Lemma ex_seq_calls : ret_views [] ex_seq =
    (13, Some (mkCall (OpStart 1) (Some false) 1 1 0), true);    (* start, none running: exactly one instance *)
    (14, Some (mkCall (OpRestart 1) (Some true) 1 1 1), true);   (* restart: one stop request, exactly one new instance *)
    (15, Some (mkCall (OpStop 9) (Some false) 0 0 0), false)].   (* unknown name: fails, nothing done *)
+Proof. vm_compute. reflexivity. Qed.
+
+(* ---- the registry view of ex_seq: for each returning call, its call record (operation, the lookup its
+   check was decided on, stops requested), its result, and the registry at the return ------------------- *)
+Fixpoint ret_lookups (v : rv) (evs : list (tid * event)) : list (tid * option kcall * bool * amap iid) :=
+  match evs with
+  | [] => []
+  | (th, e) :: r => match e with EApiReturn ok => [(th, get th (rv_call v), ok, rv_reg v)] | _ => [] end
+                    ++ ret_lookups (rv_step v (th, e)) r
+  end.
+
+Lemma ex_seq_lookups : ret_lookups rv0 ex_seq =
+  [(11, Some (mkK (OpStart 1) (Some (1, Some 100)) 0), false, [(1, 100)]);   (* 100 registered: start fails *)
+   (12, Some (mkK (OpStop 1) (Some (1, Some 100)) 1), true, [(1, 100)]);     (* stop of the registered 100 *)
+   (1,  Some (mkK OpRun None 0), true, []);
+   (13, Some (mkK (OpStart 1) (Some (1, None)) 0), true, [(1, 101)]);        (* nothing registered: start creates 101 *)
+   (14, Some (mkK (OpRestart 1) (Some (1, Some 101)) 1), true, [(1, 102)]);  (* restart stops 101, registers 102 *)
+   (15, Some (mkK (OpStop 9) (Some (9, None)) 0), false, [(1, 102)])].       (* unknown name: nothing found, fails *)
 Proof. vm_compute. reflexivity. Qed.
